@@ -83,9 +83,9 @@ CHECKS = {
                 text='Bounded symbolic model checking by source->SMT translation: serial<->date is the 1900 system and a bijection for EVERY whole serial 1..2958465 (one query each); time of day = fraction; '
                      'DAY/MONTH/YEAR/ISOWEEKNUM and WEEKDAY (all ten return types, every invalid type) for every serial 61..2958465; DATE(YEAR,MONTH,DAY)=n; DATE carry for all months/days in -60..60 '
                      '(thorough -2000..2000) on 10 representative years; EDATE/EOMONTH for every day of 7 representative years x offsets -24..24 (thorough -120..120); DAYS over all pairs of serials 1..2958465 without 60 (the class\'s own __sub__ interpreted), DATEDIF("d") and YEARFRAC bases 2/3 over '
-                     'all pairs of serials 61..; DATEDIF "M"/"Y" = complete months/years for every start day of 7 representative years x every end from 40 days before to 400/1500 (thorough 1100/3700) days after. Thorough: every deciding query re-decided by z3 4.8.12 and cvc5. Boundary inputs and solver models are replayed on the real functions.',
-                note='Trusted: kt/kt.py, kt/models_date.py (datetime/timedelta/relativedelta/rrule(DAILY/MONTHLY/YEARLY) models, days-from-civil formula), z3. Outside: DATEDIF units MD/YM/YD (not in the statement), YEARFRAC bases 0/1/4 '
-                     '(yearfrac package tables), NOW/TODAY, serial 60; DATE/EDATE/EOMONTH over ALL years at once (z3 answers unknown) - representative years instead.'),
+                     'all pairs of serials 61..; DATEDIF "M"/"Y" = complete months/years for every start day of 7 representative years x every end from 40 days before to 400/1500 (thorough 1100/3700) days after. YEARFRAC bases 0 and 4 = (360 dy + 30 dm + dd)/360 for every day of 5 representative years x 500 (thorough 1500) days either way where neither day of month exceeds 27, with the installed yearfrac package interpreted from source. Thorough: every deciding query re-decided by z3 4.8.12 and cvc5. Boundary inputs and solver models are replayed on the real functions.',
+                note='Trusted: kt/kt.py, kt/models_date.py (datetime/timedelta/relativedelta/rrule(DAILY/MONTHLY/YEARLY) models, days-from-civil formula), z3. Outside: DATEDIF units MD/YM/YD (not in the statement), YEARFRAC basis 1 and bases 0/4 on days 28-31 '
+                     '(US/European conventions differ), NOW/TODAY, serial 60; DATE/EDATE/EOMONTH over ALL years at once (z3 answers unknown) - representative years instead.'),
     'C16': dict(engine='KT+XH', technique='kernel translation of the rounding kernels into z3 reals/ints (one query per function) + CrossHair symbolic execution of every math function with contract stubs for the C library',
                 text='Bounded symbolic model checking: ROUND/ROUNDUP/ROUNDDOWN/TRUNC for EVERY real number in -10^15..10^15 and every digit count -10..10, INT, EVEN, FLOOR (integers), CEILING (integers, 9 significances), MOD (integer dividends, 11 divisors) '
                      'equal Excel\'s rounding direction on exact decimal arithmetic; every function of the statement returns a finite number or an Excel error for ALL real arguments when the C library is replaced by its '
